@@ -12,7 +12,7 @@
    inf there and the harness treats those entries as not comparable. *)
 From Coq Require Import QArith Qcanon List Bool Arith.
 From PV.Base Require Import Sums.
-From PV.Model Require Import NsiLang.
+From PV.Model Require Import NsiLang Measures.
 Import ListNotations.
 Open Scope Qc_scope.
 
@@ -28,6 +28,13 @@ Inductive mexp :=
 | MMax2 (a b : mexp)             (* np.maximum *)
 | MMin2 (a b : mexp)
 | MRows (v : vexp)               (* np.repeat([v], N, axis=0): entry (i,j) = v j *)
+(* D = path_lengths() + identity, inf where unconnected.  The code never uses
+   D itself but f(D) with f(inf) = 0: D with the inf entries overwritten by 0,
+   1 / D, 2 ** (-D).  f k is the value at a pair first reached after k + 1
+   steps of A+; B is the search bound of the model (true distances for
+   B >= N, Model/Measures.v) *)
+| MDistFn (f : nat -> Qc) (B : nat)
+| MConn (B : nat)                (* 1 where connected:  ~ np.isinf(D) *)
 with vexp :=
 | VW                             (* self.node_weights *)
 | VConst (q : Qc)                (* a scalar broadcast over the nodes *)
@@ -35,7 +42,9 @@ with vexp :=
 | VVecMat (v : vexp) (m : mexp)  (* v * M *)
 | VDiagonal (m : mexp)
 | VAdd (a b : vexp) | VSub (a b : vexp) | VMul (a b : vexp) | VDiv (a b : vexp)
-| VRowMax (m : mexp).            (* M.toarray().max(axis=1), entries >= 0 *)
+| VRowMax (m : mexp)             (* M.toarray().max(axis=1), entries >= 0 *)
+| VWtot                          (* self.total_node_weight, broadcast *)
+| VAllConn (B : nat).            (* 1 iff every node is reachable: x / inf = 0 *)
 
 Inductive sexp :=
 | SConst (q : Qc)
@@ -60,6 +69,8 @@ Fixpoint mden (G : graph) (m : mexp) (i j : nat) {struct m} : Qc :=
   | MMax2 a b => qmax (mden G a i j) (mden G b i j)
   | MMin2 a b => qmin (mden G a i j) (mden G b i j)
   | MRows v => vden G v j
+  | MDistFn f B => eval G [j; i] (dsum f B 1 0)
+  | MConn B => eval G [j; i] (Conn B 1 0)
   end
 with vden (G : graph) (v : vexp) (i : nat) {struct v} : Qc :=
   match v with
@@ -73,6 +84,8 @@ with vden (G : graph) (v : vexp) (i : nat) {struct v} : Qc :=
   | VMul a b => vden G a i * vden G b i
   | VDiv a b => vden G a i / vden G b i
   | VRowMax m => maxn (gn G) (fun k => mden G m i k)
+  | VWtot => sumn (gn G) (gw G)
+  | VAllConn B => eval G [i] (AllConn B 0)
   end.
 
 Fixpoint sden (G : graph) (s : sexp) : Qc :=
